@@ -1,4 +1,83 @@
+(* C03 property theorems (fine-grained model C03_Model.v: every interleaving of any number of
+   threads on any number of vCPUs).  Statements that are not proved yet are kept as Definitions. *)
 From Coq Require Import ZArith List.
-From PV Require Import Base.U64 C03.C03_Model C03.C03_Proofs.
-Theorem c03_placeholder : True. Proof. exact placeholder. Qed.
-Print Assumptions c03_placeholder.
+From PV Require Import Base.U64 C04.C04_Heap C03.C03_Model C03.C03_WF C03.C03_Proofs C03.C03_Queue.
+Import ListNotations.
+Local Open Scope Z_scope.
+
+(* scheduler well-formedness in every reachable state (wait queues = SLEEPING threads pointing back,
+   run queues = READY/RUNNING threads of that vCPU without duplicates, ...) *)
+Theorem c03_sched_wf : forall nv kinds home progs s, Reach nv kinds home progs s -> WF s.
+Proof. exact WF_reachable. Qed.
+Print Assumptions c03_sched_wf.
+
+(* cv_atomic_release (lock side): a waiter that has called wait(c,l) and is not yet on the queue
+   still owns l — for mutex and spinlock alike, in every interleaving *)
+Theorem c03_cv_lock_kept_until_enqueued : forall nv kinds home progs s t c l,
+  Reach nv kinds home progs s -> wait_called s t c l -> lown s l = Some t.
+Proof. exact cv_lock_kept_until_enqueued. Qed.
+Print Assumptions c03_cv_lock_kept_until_enqueued.
+
+(* the deferred unlock pending on a vCPU belongs to a sleeper of that vCPU that still owns the lock:
+   the lock is released only after the enqueue (prepare_usleep) has happened *)
+Theorem c03_cv_deferred_unlock_owner : forall nv kinds home progs s v w l,
+  Reach nv kinds home progs s -> pend (vc s v) = Some (w, l) -> lown s l = Some w /\ vcp (th s w) = v.
+Proof. exact cv_deferred_unlock_owner. Qed.
+Print Assumptions c03_cv_deferred_unlock_owner.
+
+(* cv_no_lost_notify (lock side): when a notifier N owns l, no other thread is between its call of
+   wait(c,l) and its enqueue *)
+Theorem c03_cv_notifier_excludes_unqueued_waiter : forall nv kinds home progs s N W c l,
+  Reach nv kinds home progs s -> lown s l = Some N -> N <> W -> ~ wait_called s W c l.
+Proof. exact cv_notifier_excludes_unqueued_waiter. Qed.
+Print Assumptions c03_cv_notifier_excludes_unqueued_waiter.
+
+Theorem c03_held_exclusive : forall nv kinds home progs s t1 t2 l,
+  Reach nv kinds home progs s -> held (th s t1) l = true -> held (th s t2) l = true -> t1 = t2.
+Proof. exact held_exclusive. Qed.
+Print Assumptions c03_held_exclusive.
+
+(* cv_wait_returns_locked *)
+Theorem c03_cv_wait_returns_locked : forall nv kinds home progs s a s' t l,
+  Reach nv kinds home progs s -> step s a = Some s' ->
+  in_relock (tpc (th s t)) l -> tpc (th s' t) = PIdle -> held (th s' t) l = true ->
+  lown s' l = Some t.
+Proof. exact cv_wait_returns_locked. Qed.
+Print Assumptions c03_cv_wait_returns_locked.
+
+(* queue side: a thread that has executed the enqueue block of wait(c,l) and that nobody has woken
+   (ghost wk = WNone: no notify, time-out, interrupt picked it) is a member of c's queue *)
+Theorem c03_cv_enqueued_stays_queued : forall nv kinds home progs s t c l,
+  Reach nv kinds home progs s -> tpc (th s t) = PWaitSlept c l -> wk (th s t) = WNone -> In t (wqs s (WCv c)).
+Proof. intros nv kinds home progs s t c l R. exact (WK_reachable nv kinds home progs s R t c l). Qed.
+Print Assumptions c03_cv_enqueued_stays_queued.
+
+(* cv_atomic_release: no reachable state in which a waiter has given up the lock and is neither on the
+   queue nor already woken — every interleaving, any number of vCPUs, mutex and spinlock *)
+Theorem c03_cv_atomic_release : forall nv kinds home progs s t c l,
+  Reach nv kinds home progs s -> (wait_called s t c l \/ wait_enqueued s t c l) ->
+  lown s l <> Some t -> wait_enqueued s t c l /\ (In t (wqs s (WCv c)) \/ wk (th s t) <> WNone).
+Proof. exact cv_atomic_release. Qed.
+Print Assumptions c03_cv_atomic_release.
+
+(* cv_no_lost_notify: while N owns l, every other thread inside wait(c,l) has been enqueued, and is on the
+   queue unless it has already been woken or timed out *)
+Theorem c03_cv_no_lost_notify : forall nv kinds home progs s N W c l,
+  Reach nv kinds home progs s -> lown s l = Some N -> N <> W ->
+  (wait_called s W c l \/ wait_enqueued s W c l) -> wk (th s W) = WNone \/ wait_called s W c l ->
+  wait_enqueued s W c l /\ (wk (th s W) = WNone -> In W (wqs s (WCv c))).
+Proof. exact cv_no_lost_notify. Qed.
+Print Assumptions c03_cv_no_lost_notify.
+
+(* ---- statements not proved yet (kept at full strength) ---------------------------------------- *)
+(* notify_one_exact: the notifier at PNfGo holds the lock of the queue head, which is SLEEPING; the
+   model never leaves the domain where prelocked_thread_interrupt is defined *)
+Definition never_bad : Prop := forall nv kinds home progs s, Reach nv kinds home progs s -> bad s = false.
+Definition notify_go_head : Prop := forall nv kinds home progs s N c x all n,
+  Reach nv kinds home progs s -> tpc (th s N) = PNfGo c x all n ->
+  hd_error (wqs s (WCv c)) = Some x /\ lk (th s x) = Some N /\ st (th s x) = SLEEPING.
+(* cv_wait_result: 0 only if notified; ETIMEDOUT only if woken by the timer at/after the deadline *)
+Definition cv_wait_result : Prop := forall nv kinds home progs s t c l,
+  Reach nv kinds home progs s -> tpc (th s t) = PWaitSlept c l ->
+  (err (th s t) = -1 -> exists n, wk (th s t) = WNotified n) /\
+  (wk (th s t) = WTimeout -> ts (th s t) <= now s).
